@@ -157,6 +157,138 @@ fn cli_bin() -> String {
 
 static SEQ: AtomicU64 = AtomicU64::new(0);
 
+// ------------------------------------------------------------------------------------------------ asn1! macro
+// The macro clause of the property: `asn1!(text)` expands to the bindings the library returns for the same
+// text (a text without BEGIN is an assignment list inside an AUTOMATIC TAGS module, as the macro documents) and
+// fails to expand exactly when the library returns Err.  Both crates of /verif/macrocheck are expanded by rustc
+// (-Zunpretty=expanded): `ma` invokes the macro, `mb` contains the library's text for the same input.
+
+const MACRO_INPUTS: [(&str, &str, bool); 8] = [
+    ("module", "Alpha DEFINITIONS AUTOMATIC TAGS ::= BEGIN\nA ::= SEQUENCE { a INTEGER (0..7), b BOOLEAN OPTIONAL }\nv INTEGER ::= 5\nEND\n", true),
+    ("module-explicit", "Beta DEFINITIONS EXPLICIT TAGS ::= BEGIN\nB ::= CHOICE { x [0] NULL, y [1] UTF8String }\nC ::= SEQUENCE { c [5] B }\nEND\n", true),
+    ("fragment", "A ::= SEQUENCE { a INTEGER (0..7), b BOOLEAN OPTIONAL }\nE ::= ENUMERATED { p, q-r }\nv INTEGER ::= 5", true),
+    ("fragment-untagged-choice", "C ::= CHOICE { x NULL, y BOOLEAN }\nS ::= SEQUENCE { c C, d SEQUENCE OF C }", true),
+    ("fragment-warn", "W ::= REAL\nX ::= ENUMERATED { p, q }", true),
+    ("two-modules", "Alpha DEFINITIONS AUTOMATIC TAGS ::= BEGIN\nA ::= BOOLEAN\nEND\nBeta DEFINITIONS IMPLICIT TAGS ::= BEGIN\nB ::= [1] NULL\nEND\n", true),
+    ("err-module", "Broken DEFINITIONS AUTOMATIC TAGS ::= BEGIN\nA ::= SEQUENCE { a \u{a7}\u{a7} }\nEND\n", false),
+    ("err-fragment", "A ::= SEQUENCE { a INTEGER,, }", false),
+];
+
+fn macro_literal(text: &str) -> String {
+    // what the macro documents: a text without a module body is wrapped into a dummy AUTOMATIC TAGS module
+    if text.contains("BEGIN") {
+        text.to_string()
+    } else {
+        format!("asn1 {{ dummy(999) header(999) }}\n\nDEFINITIONS AUTOMATIC TAGS::= BEGIN\n{text}END")
+    }
+}
+
+fn macro_results() -> &'static std::sync::Mutex<BTreeMap<String, String>> {
+    static R: std::sync::OnceLock<std::sync::Mutex<BTreeMap<String, String>>> = std::sync::OnceLock::new();
+    R.get_or_init(|| std::sync::Mutex::new(BTreeMap::new()))
+}
+
+fn cargo_in(dir: &str, args: &[&str]) -> Result<(bool, String, String), String> {
+    let out = Command::new("cargo").args(args).current_dir(dir).env("RUSTC_BOOTSTRAP", "1").env("CARGO_NET_OFFLINE", "true").stdout(Stdio::piped()).stderr(Stdio::piped()).output().map_err(|e| format!("cannot run cargo: {e}"))?;
+    Ok((out.status.success(), String::from_utf8_lossy(&out.stdout).to_string(), String::from_utf8_lossy(&out.stderr).to_string()))
+}
+
+/// text of `pub mod <name> { ... }` (brace matched) inside a pretty-printed expansion, whitespace removed
+fn module_block(expanded: &str, name: &str) -> Option<String> {
+    let start = expanded.find(&format!("pub mod {name} {{"))?;
+    let mut depth = 0i32;
+    for (i, ch) in expanded[start..].char_indices() {
+        match ch {
+            '{' => depth += 1,
+            '}' => {
+                depth -= 1;
+                if depth == 0 {
+                    // the macro runs where rustfmt may be available, the harness where it is not: formatting is not
+                    // part of the property, so neutralise what rustfmt changes (order of use lines, trailing commas)
+                    let block = &expanded[start..start + i + 1];
+                    let mut lines: Vec<&str> = block.lines().collect();
+                    let mut k = 0;
+                    while k < lines.len() {
+                        if lines[k].trim_start().starts_with("use ") {
+                            let mut e = k;
+                            while e < lines.len() && lines[e].trim_start().starts_with("use ") {
+                                e += 1;
+                            }
+                            lines[k..e].sort_by_key(|l| l.trim().to_string());
+                            k = e;
+                        } else {
+                            k += 1;
+                        }
+                    }
+                    let flat: String = lines.join("\n").chars().filter(|c| !c.is_whitespace()).collect();
+                    return Some(flat.replace(",)", ")").replace(",]", "]").replace(",}", "}"));
+                }
+            }
+            _ => {}
+        }
+    }
+    None
+}
+
+/// runs the whole macro family once; result per input name: "same" | "differs:<detail>" | "failed-as-expected" | ...
+fn macro_batch() -> Result<(), String> {
+    let root = format!("{}/macrocheck", verif_dir());
+    let mut ma = String::from("#![allow(warnings)]\n");
+    let mut mb = String::from("#![allow(warnings)]\n");
+    let mut lib_ok: BTreeMap<String, bool> = BTreeMap::new();
+    for (name, text, _) in MACRO_INPUTS.iter() {
+        let k = name.replace('-', "_");
+        let lib = compile_rasn(&[macro_literal(text)], &Cfg::default());
+        let ok = matches!(lib, Outcome::Ok { .. });
+        lib_ok.insert(name.to_string(), ok);
+        if let Outcome::Ok { generated, .. } = lib {
+            ma += &format!("pub mod {k} {{ rasn_compiler_derive::asn1!(r####\"{text}\"####); }}\n");
+            mb += &format!("pub mod {k} {{ {generated} }}\n");
+        }
+    }
+    std::fs::write(format!("{root}/ma/src/lib.rs"), &ma).map_err(|e| e.to_string())?;
+    std::fs::write(format!("{root}/mb/src/lib.rs"), &mb).map_err(|e| e.to_string())?;
+    let (oka, ea, erra) = cargo_in(&root, &["rustc", "-p", "ma", "--offline", "--lib", "--", "-Zunpretty=expanded"])?;
+    let (okb, eb, errb) = cargo_in(&root, &["rustc", "-p", "mb", "--offline", "--lib", "--", "-Zunpretty=expanded"])?;
+    if !okb {
+        return Err(format!("the library's text does not expand (machinery or C01 matter): {}", errb.chars().rev().take(600).collect::<String>().chars().rev().collect::<String>()));
+    }
+    let mut map = macro_results().lock().unwrap();
+    for (name, _, _) in MACRO_INPUTS.iter() {
+        if !lib_ok[*name] {
+            continue;
+        }
+        let k = name.replace('-', "_");
+        let r = if !oka {
+            format!("macro-failed:{}", erra.lines().filter(|l| l.contains("error")).take(2).collect::<Vec<_>>().join(" / "))
+        } else {
+            match (module_block(&ea, &k), module_block(&eb, &k)) {
+                (Some(a), Some(b)) if a == b => "same".to_string(),
+                (Some(a), Some(b)) => {
+                    let pos = a.chars().zip(b.chars()).position(|(x, y)| x != y).unwrap_or(a.len().min(b.len()));
+                    format!("differs:at {pos}: macro `{}` library `{}`", a.chars().skip(pos.saturating_sub(60)).take(160).collect::<String>(), b.chars().skip(pos.saturating_sub(60)).take(160).collect::<String>())
+                }
+                _ => "missing-module-in-expansion".to_string(),
+            }
+        };
+        map.insert(name.to_string(), r);
+    }
+    // inputs the library rejects: the macro must fail to expand (one crate build per input)
+    for (name, text, _) in MACRO_INPUTS.iter() {
+        if lib_ok[*name] {
+            continue;
+        }
+        std::fs::write(format!("{root}/ma/src/lib.rs"), format!("#![allow(warnings)]\npub mod k {{ rasn_compiler_derive::asn1!(r####\"{text}\"####); }}\n")).map_err(|e| e.to_string())?;
+        let (ok, _, err) = cargo_in(&root, &["check", "-p", "ma", "--offline"])?;
+        let r = if ok { "expanded-although-library-errs".to_string() } else if err.contains("proc macro panicked") || err.contains("proc-macro") { "failed-as-expected".to_string() } else { format!("failed-otherwise:{}", err.lines().filter(|l| l.contains("error")).take(2).collect::<Vec<_>>().join(" / ")) };
+        map.insert(name.to_string(), r);
+    }
+    // leave compiling stubs behind
+    let _ = std::fs::write(format!("{root}/ma/src/lib.rs"), "#![allow(warnings)]\n");
+    let _ = std::fs::write(format!("{root}/mb/src/lib.rs"), "#![allow(warnings)]\n");
+    Ok(())
+}
+
 impl Prop for C20 {
     type Case = Case;
     fn id(&self) -> &'static str {
@@ -227,6 +359,7 @@ impl Prop for C20 {
                     }
                 }
             }
+            // (the asn1! macro family is appended after the backend loop)
             // two-step histories on one destination
             for (a, b) in [("ok", "err"), ("err", "ok"), ("ok", "warn"), ("warn", "unreadable"), ("unreadable", "ok")] {
                 for mode in ["file", "dir"] {
@@ -237,9 +370,35 @@ impl Prop for C20 {
                 }
             }
         }
+        for (name, _, _) in MACRO_INPUTS.iter() {
+            out.push(Case { steps: vec![Step { input: name.to_string(), source: "macro".into() }], mode: "none".into(), dest: "absent".into(), backend: "rasn".into(), via: "macro".into() });
+        }
+        if let Err(e) = macro_batch() {
+            eprintln!("MACHINERY: {e}");
+            std::process::exit(2);
+        }
         out
     }
     fn check(&self, c: &Case) -> CaseResult {
+        if c.via == "macro" {
+            let name = c.steps[0].input.clone();
+            let mut r = macro_results().lock().unwrap().get(&name).cloned();
+            if r.is_none() {
+                // replay path
+                if let Err(e) = macro_batch() {
+                    return CaseResult { discs: vec![Disc::new("deliver|macro|machinery".to_string(), e)], nontrivial: false, outcome: "machinery".into(), skipped: None };
+                }
+                r = macro_results().lock().unwrap().get(&name).cloned();
+            }
+            let r = r.unwrap_or_else(|| "no-result".into());
+            let expect_ok = MACRO_INPUTS.iter().find(|x| x.0 == name).map_or(true, |x| x.2);
+            let good = if expect_ok { r == "same" } else { r == "failed-as-expected" };
+            let mut discs = vec![];
+            if !good {
+                discs.push(Disc::new(format!("deliver|macro|input={name}|{}", r.split(':').next().unwrap_or("")), format!("asn1!({name}): {r}\n{}", MACRO_INPUTS.iter().find(|x| x.0 == name).map(|x| x.1).unwrap_or(""))));
+            }
+            return CaseResult { discs, nontrivial: true, outcome: format!("macro:{}", r.split(':').next().unwrap_or("")), skipped: None };
+        }
         if c.dest.starts_with("readonly") && !readonly_enforced() {
             return CaseResult::skip("readonly-not-realisable-as-root");
         }
